@@ -589,6 +589,37 @@ static void run(void)
 			}
 		}
 	}
+	/* a single-operand matcher next to containsAllOf with the EMPTY array and with every one-element array, both orders, and the empty
+	 * array between two matchers: the empty array restricts nothing, so the rule is refused or selects what the other matchers select */
+	for (int n1 = 0; n1 < NM - 1; n1++) {
+		for (int o1 = 0; o1 < NOPER; o1++) {
+			for (int t = -1; t < NOPER; t++) {
+				for (int order = 0; order < 3; order++) {
+					if (order == 2 && t >= 0) {
+						continue;
+					}
+					if (!MINE()) {
+						continue;
+					}
+					memset(&r, 0, sizeof(r));
+					struct matcher single = {.name = n1, .nops = 1, .ops = {o1}};
+					struct matcher all = {.name = 5, .nops = t < 0 ? 0 : 1, .ops = {t < 0 ? 0 : t}};
+					if (order == 2) {
+						r.n = 3;
+						r.m[0] = single;
+						r.m[1] = all;
+						r.m[2] = (struct matcher){.name = (n1 + 1) % (NM - 1), .nops = 1, .ops = {(o1 + 3) % NOPER}};
+					} else {
+						r.n = 2;
+						r.m[order] = single;
+						r.m[1 - order] = all;
+					}
+					r.ci = (o1 & 1) ? 2 : 0;
+					check_rule(&r, t < 0);
+				}
+			}
+		}
+	}
 	/* all six matchers at once with containsAllOf, every operand (6 matchers <= configured maximum) */
 	for (int op = 0; op < NOPER; op++) {
 		if (!MINE()) {
@@ -730,6 +761,6 @@ const struct driver drv_c16 = {
     .name = "c16",
     .property = "C16",
     .run = run,
-    .rule = "12 states and 3 methods over paths {a, A, ab, aB, Ab, b, abc, bc, a/b, e-acute, E-acute, 300 x 'x', ma, Ma, xab}; operands = the 12 state paths plus the empty string and 301 x 'x'; every single matcher (5 names x 14 operands x 4 caseInsensitive forms), containsAllOf with every array of size 0..2 (thorough 0..3), every ordered pair of distinct single-operand matchers x operands x {case-sensitive, caseInsensitive}, (thorough) all triples over 5 operands, all six matchers at once, 18 malformed rule shapes, near-miss member names (every valid name with a character appended / removed / blank / other case, alone and next to valid matchers, 3 operand types), 13 matchers, 4 repeated-option forms; each rule is sent as get and as fetch+unfetch in one long daemon session per chunk and compared with a byte-wise reference matcher with ASCII-only folding; transitions = rules checked; every execution (chunk) is non-trivial",
+    .rule = "12 states and 3 methods over paths {a, A, ab, aB, Ab, b, abc, bc, a/b, e-acute, E-acute, 300 x 'x', ma, Ma, xab}; operands = the 12 state paths plus the empty string and 301 x 'x'; every single matcher (5 names x 14 operands x 4 caseInsensitive forms), containsAllOf with every array of size 0..2 (thorough 0..3), every single matcher next to containsAllOf with the empty array and with every one-element array in both orders (and the empty array between two matchers), every ordered pair of distinct single-operand matchers x operands x {case-sensitive, caseInsensitive}, (thorough) all triples over 5 operands, all six matchers at once, 18 malformed rule shapes, near-miss member names (every valid name with a character appended / removed / blank / other case, alone and next to valid matchers, 3 operand types), 13 matchers, 4 repeated-option forms; each rule is sent as get and as fetch+unfetch in one long daemon session per chunk and compared with a byte-wise reference matcher with ASCII-only folding; transitions = rules checked; every execution (chunk) is non-trivial",
     .assumptions = "an empty containsAllOf array may be refused or match everything|a non-boolean caseInsensitive value is not judged|the long session never disconnects: leaks are detected through the accounted heap after fetch+unfetch",
 };
